@@ -9,6 +9,10 @@ def handle (zs : Zones) (ws : List String) : Option String :=
     let z ← parseZRef zs z
     let w ← w.toInt?
     some (replyV (create z w (f == "1") (r == "1")))
+  | ["createp", z, w, f, r] => do
+    let z ← parseZRef zs z
+    let w ← w.toInt?
+    some (replyV (createFromPendulumNaive z w (f == "1") (r == "1")))
   | _ => none
 
 end Pendulum.Drv.C02
